@@ -198,6 +198,18 @@ func checkC17(ctx *Ctx) {
 			runC17(ctx, cases[i])
 		}
 	})
+	if ctx.Thorough() {
+		// outside the property's quantifier (max < 2n), the model's negative theorem c17_too_few_slots_deadlock:
+		// with one slot the pair must hang on the real code too
+		c := c17Case{N: 1, Bytes: 100, Max: 1}
+		d, pre := c.desc()
+		rr := RunWorkflow(d, RunOpts{Pre: pre, Timeout: 6e9})
+		os.RemoveAll(rr.Dir)
+		ctx.Res.Count("one-slot-pair(model: deadlock)")
+		if rr.Exit != -2 {
+			ctx.Res.Disagree(Violation{What: fmt.Sprintf("a streaming pair with a single task slot ended with exit %d, the slot model says it blocks for ever", rr.Exit), Class: "c17.model", Witness: c})
+		}
+	}
 }
 
 func init() { checks["C17"] = checkC17 }
